@@ -25,12 +25,18 @@ RENDER_DIR = os.path.join(hv.VERIF, "harness-render")
 RENDER_BIN = os.path.join(hv.BUILD, "render-target", "release", "hcrender")
 
 SPEC = {
-    "lean_modules": ["Honeycomb.Props.C20"],
+    "lean_modules": ["Honeycomb.Props.C20", "Honeycomb.Props.C20b"],
     "required_theorems": [
         "C20_vertex_entities", "C20_index_map_injective", "C20_index_map_onto", "C20_table_row",
         "C20_dart_start", "C20_dart_end", "C20_edge_entity", "C20_face_corners", "C20_dart_entities_of_face",
         "C20_each_dart_once", "C20_no_panic",
         "C20_3d_vertex_entities", "C20_3d_dart_start", "C20_3d_edge_entity", "C20_3d_face_entity",
+        "C20_3d_dart_end", "C20_3d_face_corners", "C20_3d_dart_entities_of_face", "C20_3d_second_side_is_mirror",
+        "C20_3d_face_darts_are_the_face_orbit", "C20_3d_face_darts_nodup", "C20_3d_self_glued_face_twice",
+        "C20_D20a_zero_normal_iff", "C20_D20a_straight_corner", "C20_3d_normal_nonzero", "C20_2d_normal_nonzero_iff",
+        "C20_2d_spike_zero", "C20_plane_normal_of_scene",
+        "C20_face_normal_keys", "C20_3d_face_normal_keys", "C20_3d_volume_normal_keys",
+        "C20_3d_each_dart_once", "C20_3d_no_panic", "faceId3_min", "mem_iterFaces3_iff", "C20_newell_is_vector_area",
     ],
     "trusted_base": [
         "Lean 4.33 kernel; axioms propext, Classical.choice, Quot.sound only",
@@ -47,7 +53,8 @@ SPEC = {
         "maps have fewer than 2^32 darts",
         "2-D theorems: WF 3 m, ClosedFaces (every in-use dart has a β1 image), for C20_no_panic also NoLoops (no 1-sided face; "
         "the Rust code indexes vertex_ids[1]) and Embedded; they are stated for `extract2 m = some sc`, which C20_no_panic "
-        "provides.  3-D theorems are conditional on `extract3 m = some sc`",
+        "provides.  3-D theorems: WF 4 m, ClosedFaces, where named Mirror / Sided / NoSelfGlue / NoLoops / Embedded3; stated "
+        "for `extract3 m = some sc`, which C20_3d_no_panic provides",
     ],
     "rule": "correspondence hcmodel vs hcrender on: every WF 2-map with n<=N darts (N=4 quick / 5 thorough) incl. removed, "
             "isolated, open and degenerate faces (model must predict panic or the exact scene); every WF 3-map n<=3 plus 10% of n=4 (quick) / n<=4 (thorough); "
@@ -58,16 +65,25 @@ SPEC = {
             "sides, every vertex id embedded, 3-D: faces mirrored and 3-linked to a *different* β1-cycle; normals additionally need non-degenerate corners). "
             "distinct_nontrivial = distinct implementation transcripts.",
     "not_proved": [
-        "normals (FaceNormals / VolumeNormals vectors) are finite unit vectors: glam f32 arithmetic is not modelled; oracle "
-        "only (|‖n‖-1| < 1e-4 recomputed from the printed decimals).  The clause is FALSE in 3-D at straight corners "
-        "(known finding D20a)",
-        "3-D: dart `end` = vertex of β1 d, face corner order = β1-cycle, the two-sided dart enumeration (second side from "
-        "β3(id) is exactly the mirror side, one entity per in-use dart), panic-freedom and the VolumeNormals keys: they need "
-        "the walk lemma / id theory for orbit3, faceId3 (C03 covers 2-D only).  Proved in 3-D: vertex entities, table rows, "
-        "dart ids + start, edge ends, face ids + corner rows along the Custom[1] walk.  Rest: correspondence + oracle",
-        "FaceNormals keys = (face, corner row) pairs: only modelled and compared (correspondence + oracle), no theorem",
-        "the theorems speak about the model; that bevy applies the spawn commands and the harness dumps every entity is "
-        "trusted (the dump prints the total entity count, checked by the oracle)",
+        "the IEEE / glam f32 part of the normals: that `normalize` maps a non-zero finite vector to a unit vector within "
+        "1e-4 and the zero vector to NaN, and the f32 rounding of the cross products and sums.  Proved exactly over Q "
+        "(Props/C20b.lean): the 3-D plane normal vec_in x vec_out is the zero vector iff the two sides at the corner are "
+        "linearly dependent (C20_D20a_zero_normal_iff, C20_D20a_straight_corner = finding D20a as a theorem), otherwise the "
+        "vector handed to the last normalize is non-zero for all positive weights (C20_3d_normal_nonzero); 2-D: the sum is "
+        "zero for some positive weights iff the corner is a spike (C20_2d_normal_nonzero_iff, C20_2d_spike_zero); "
+        "C20_plane_normal_of_scene ties the plane normal computed from the table rows to the map's own coordinates.  The "
+        "oracle checks finite+unit on the implementation and, in 3-D, NaN <=> exact plane normal zero",
+        "VolumeNormals vectors: proved exactly only that the per-face Newell sum is the sum of the cross products of "
+        "consecutive corners = twice the vector area (C20_newell_is_vector_area); the sum of the unit face normals at a "
+        "vertex and its normalisation are oracle only.  A flat solid (two faces back to back) would cancel to zero — "
+        "outside the generated streams",
+        "3-D: the corner rows / dart ends / two-sided enumeration / one-entity-per-dart / panic-freedom theorems need "
+        "Mirror + Sided (a face is 3-linked as a whole) + NoSelfGlue as hypotheses; Mirror is preserved by every editing "
+        "call (C02), Sided and NoSelfGlue are not proved invariants of the editing API here (three_link / three_unlink walk "
+        "whole faces; three_link refuses two darts of one cycle) — the oracle evaluates them on every case "
+        "(outside: face partially 3-linked / 3-linked to itself)",
+        "the printed order of entities is the harness' (sorted); that bevy applies the spawn commands and the harness dumps "
+        "every entity is trusted (the dump prints the total entity count, checked by the oracle)",
     ],
 }
 
@@ -382,6 +398,12 @@ def oracle_scene(case, li):
             nrm = math.sqrt(sum(x * x for x in xs))
             if not all(math.isfinite(x) for x in xs) or abs(nrm - 1) >= 1e-4:
                 bad.append((name, tuple(int(x) for x in key.split(",")), v))
+    if dim == 3:
+        # tie of C20_D20a_zero_normal_iff / planeNormalAt: the exact plane normal is zero  =>  the stored normal is NaN
+        badkeys = {key for nm, key, _ in bad if nm == "FNV"}
+        missed = sorted(k for k in straight if k not in badkeys)
+        if missed:
+            return f"exact plane normal is the zero vector at corner(s) {missed[:4]} but the stored FaceNormals are finite unit vectors"
     if (not bad) != sec.get("nok", True):
         return f"harness verdict nok={sec.get('nok')} contradicts the printed normals ({len(bad)} bad)"
     if bad:
